@@ -17,7 +17,7 @@ pub fn prop() -> Prop {
         max_len: 400,
         quick: 40_000,
         thorough: 400_000,
-        rule: "choice sequence -> envelope x recipient list of 1-5 keys from a pool of 10 (4 X25519, 2 each ML-KEM-512/768/1024; duplicates allowed, mixed schemes) x every listed and 2-3 unlisted private keys; encrypt_subject_to_recipients, encrypt_subject_to_recipient, encrypt_to_recipient/decrypt_to_recipient, a later add_recipient with the content key, manual encrypt_subject+add_recipient, seal/unseal over generated sender-scheme x recipient-scheme pairs with right/wrong sender and right/wrong recipient. oracle: the encrypted envelope keeps the specification digest of the original subject and all original assertions plus one 'hasRecipient' assertion per distinct sealing; each listed key decrypts to a subject identical to the original (bytes) with the original assertions still present; each unlisted key gets Err; wrapped form and unseal return an envelope byte-identical to the original; earlier recipients still decrypt after add_recipient; wrong sender / wrong recipient give Err. non-trivial: >=2 recipients or a seal case; distinct by FNV-64 of (encoding, recipient indices); the recipient assertions as later holders leave them: one 'hasRecipient' assertion salted / annotated, the predicate obscured everywhere, one sealed message or its assertion obscured - every recipient whose sealed message is still readable opens to the original subject, at most one distinct recipient is locked out; an annotated sealed message; encryption through the *_opt routes chosen by the recipient list",
+        rule: "choice sequence -> envelope x recipient list of 1-5 keys from a pool of 10 (4 X25519, 2 each ML-KEM-512/768/1024; duplicates allowed, mixed schemes) x every listed and 2-3 unlisted private keys; encrypt_subject_to_recipients, encrypt_subject_to_recipient, encrypt_to_recipient/decrypt_to_recipient, a later add_recipient with the content key, manual encrypt_subject+add_recipient, seal/unseal over generated sender-scheme x recipient-scheme pairs with right/wrong sender and right/wrong recipient. oracle: the encrypted envelope keeps the specification digest of the original subject and all original assertions plus one 'hasRecipient' assertion per distinct sealing; each listed key decrypts to a subject identical to the original (bytes) with the original assertions still present; each unlisted key gets Err; wrapped form and unseal return an envelope byte-identical to the original; earlier recipients still decrypt after add_recipient; wrong sender / wrong recipient give Err. non-trivial: >=2 recipients or a seal case; distinct by FNV-64 of (encoding, recipient indices); the recipient assertions as later holders leave them: one 'hasRecipient' assertion salted / annotated, the predicate obscured everywhere, one sealed message or its assertion obscured - every recipient whose sealed message is still readable opens to the original subject, at most one distinct recipient is locked out; an annotated sealed message; encryption through the *_opt routes chosen by the recipient list; annotated and redacted sealed message ('hasRecipient': ELIDED ['note': ..]) locks out at most its own recipient",
         assumptions: &["X25519 / ML-KEM / ChaCha20-Poly1305 are secure: an unlisted key cannot decrypt by chance", "ML-KEM keys are not seedable and differ per run"],
         extra: None,
     }
